@@ -993,6 +993,10 @@ EXTRACTORS["C03"] = EXTRACTORS["C03"] + [GEN_SRC["SrcSampledGet"], GEN_SRC["SrcO
 GEN_SRC.update({n: gen_src(n) for n in ("SrcFmdExt", "SrcFmdSmems", "SrcFmdAllSmems")})
 EXTRACTORS["C06"] = EXTRACTORS.get("C06", []) + [GEN_SRC[n] for n in ("SrcFmdExt", "SrcFmdSmems", "SrcFmdAllSmems")]
 
+# genfmd: `shortest_unique_substrings` (C03) — Thm/C03.lean imports RbV.Thm.GenSrcSus and restates
+GEN_SRC.update({n: gen_src(n) for n in ("SrcSus",)})
+EXTRACTORS["C03"] = EXTRACTORS["C03"] + [GEN_SRC["SrcSus"]]
+
 
 # additive registrations (kept outside the dict literal so that concurrent edits merge)
 EXTRACTORS["C03"] = EXTRACTORS["C03"] + [gen_saiswidth]
